@@ -7,7 +7,7 @@ WIRE_NAME = {"x-forwarded-for": "X-Forwarded-For", "x-forwarded-host": "X-Forwar
 ENV_KEY = {k: "HTTP_" + v.upper().replace("-", "_") for k, v in WIRE_NAME.items()}
 
 DEGENERATE = [":80", "[", "\"", "", " ", "]", "[]", "[]:80", "::", ":", "\"\"", "\"a", "a\"", "\\", "a b", "\t", ";", "=",
-              "unknown", "_hidden", "1.2.3.4:", "1.2.3.4:abc", "[::1", "::1]", "\"[::1]\"", "\"1.2.3.4\\\"\"", "x" * 300]
+              "\" :80\"", "\"  :8080\"", "\" \"", "unknown", "_hidden", "1.2.3.4:", "1.2.3.4:abc", "[::1", "::1]", "\"[::1]\"", "\"1.2.3.4\\\"\"", "x" * 300]
 
 
 def hop_addr(i, form):
